@@ -538,6 +538,20 @@ func (m *Monitor) onExit(rec *ExecRec) {
 	}
 }
 
+// onNestedProvide: user code registered a constructor from inside an Invoke (re-entrant use). The verdict
+// of that nested call is not judged; an accepted registration enters the spec state so that everything
+// after the current operation is judged against it.
+func (m *Monitor) onNestedProvide(f *Fn, s int, accepted bool) {
+	m.stats["reentrant.nested-provide"]++
+	if !accepted {
+		return
+	}
+	reg := &Reg{F: f, Op: m.w.curOp, O: s, H: s}
+	reg.prod = prodKeys(f, nil)
+	m.regs = append(m.regs, reg)
+	m.role[f.ID] = reg
+}
+
 // onCallbackPanic: a callback is about to panic. What Invoke then returns is outside every claim
 // (callbacks are not among the failure sources of C13, DESIGN 10.9); the wiring, singleton and
 // callback rules keep judging this and all later operations.
@@ -889,6 +903,12 @@ func (m *Monitor) afterCall(i int, op *Op, f *Fn, rec *OpRec) {
 	}
 	m.pend = nil
 	m.inv = nil
+	if m.reentrant {
+		// the operation during which user code called back into the container is over: the spec state was
+		// kept up to date by the events of the nested calls, later operations are judged in full again
+		m.stats["reentrant.ops"]++
+		m.reentrant = false
+	}
 }
 
 // fnDotName: the "package.Name" dig reports for a harness function.
